@@ -509,6 +509,13 @@ def gen_case(rng, maxops):
     else:
         delims = None
     while len(ops) < n:
+        # keep buffers small: every op dumps the whole remaining data and the extracted model works
+        # on lists, so a long case whose boundary scenarios keep filling the allocation (doubling
+        # it each time) becomes quadratic - 32 KB buffers overflowed the model driver's stack in
+        # a thorough run.  Growth up to 4 KB (8 doublings) is plenty.
+        if not sim.const and sim.alloc > 4096:
+            resync(sim, ops)
+            continue
         if sim.broken():
             ops.append(rng.choice(["t", "tc"]))
             sim.tag = sim.off if ops[-1] == "t" else None
